@@ -23,7 +23,8 @@ EVAL = ['cases', 'cut_points', 'alerts_injected', 'prealert_runs']
 DISTINCT = ['rogue_hello_cfg', 'reuse_after', 'close_cfg', 'cut_cfg', 'alert_cfg', 'reneg_cfg', 'sslio_cfg', 'decline_cfg', 'prealert_cfg', 'sslio2_cfg', 'schedule']
 REQUIRED = ['close_ok', 'cut_points', 'fatal_alerts_reported', 'warnings_ignored_stream_intact', 'renegotiations_completed',
             'renegotiation_info_verified', 'reneg_declined_cases', 'reneg_refusals_checked', 'sslio_cut_cases', 'sslio_close_calls', 'decline_ok', 'reneg_rogue_refused', 'prealert_cuts_agree', 'sslio2_streams_exact', 'sslio2_injected_failures_reported', 'sslio2_read_all_calls',
-            'reuse_clean_connections', 'reuse_abnormal_ends', 'rogue_hello_refused', 'rogue_hello_controls_ok']
+            'reuse_clean_connections', 'reuse_abnormal_ends', 'rogue_hello_refused', 'rogue_hello_controls_ok',
+            'reneg_forty_in_a_row_cases']
 NW = 8
 
 
